@@ -26,11 +26,11 @@ def build():
     u.raw("main_event_loop", SPEC)
     touching = ("T-ITER", r"(?P<x>acc\s*\.get_hooks\(&cnf\)\?|hooks)\s*\.iter\(\)\s*\.filter\(\|h\| !h\.hook_type\.is_disjoint\(&(?P<s>\w+)\)\)\s*\.map\(\|e\| e\.to_owned\(\)\)\s*\.collect\(\)",
                 lambda m: f"crate::shims::hooks_touching(&{' '.join(m.group('x').split())}, &{m.group('s')})", 3)
-    u.verify(M, "MainEventLoop::new", "main_event_loop", props=["C10", "C13", "C14"], fns={"new": FnSpec(ret="r", sig="""
+    u.verify(M, "MainEventLoop::new", "main_event_loop", props=["C10", "C13", "C14", "C18"], fns={"new": FnSpec(ret="r", sig="""
     ensures
         // every configured certificate has its run-time object under its own id: two certificates with the same id are an error,
         // and so is a certificate whose account is not configured
-        r matches Ok(l) ==> loaded(config_of(config_file@), root_certs@, l), //@C14.duplicate_id_and_unknown_account_are_errors
+        r matches Ok(l) ==> loaded(config_of(config_file@), root_certs@, l), //@C14.duplicate_id_and_unknown_account_are_errors,C18.every_endpoint_gets_the_command_line_roots
 """, loops={1: """
     invariant hset(file_hooks) == file_hook_types(), hset(cert_hooks) == cert_hook_types(), cnf == config_of(config_file@),
         forall|j: int| 0 <= j < it1.index@ ==> accounts@.dom().contains(cnf.account@[j].name@),
@@ -38,9 +38,10 @@ def build():
     invariant hset(file_hooks) == file_hook_types(), hset(cert_hooks) == cert_hook_types(),
         forall|j: int| 0 <= j < cnf.account@.len() ==> accounts@.dom().contains(cnf.account@[j].name@),
         cnf == config_of(config_file@),
-        forall|j: int| 0 <= j < it2.index@ ==> built(cnf, root_certs@, #[trigger] cnf.certificate@[j], certificates@, accounts@.dom(), endpoints@.dom()),
+        forall|j: int| 0 <= j < it2.index@ ==> built(cnf, root_certs@, #[trigger] cnf.certificate@[j], certificates@, accounts@.dom(), endpoints@),
         forall|i: int, j: int| 0 <= i < j < it2.index@ ==> cfg_id(#[trigger] cnf.certificate@[i]) != cfg_id(#[trigger] cnf.certificate@[j]),
         forall|k: Seq<char>| certificates@.dom().contains(k) ==> exists|j: int| 0 <= j < it2.index@ && k == cfg_id(#[trigger] cnf.certificate@[j]),
+        forall|n: Seq<char>| endpoints@.dom().contains(n) ==> roots_text((#[trigger] endpoints@[n]).cmdline_roots@) == roots_text(root_certs@),
 """},
         rewrites=[("T-ITER", r"vec!\[(?P<b>[^\]]*)\]\s*\.into_iter\(\)\s*\.collect\(\)", lambda m: f"crate::shims::hookset(vec![{m.group('b')}])", 2),
                   touching,
@@ -104,15 +105,18 @@ pub open spec fn cert_ok(cnf: Config, crt: config::Certificate, roots: Seq<&str>
     &&& crt_endpoint_name(crt, cnf, roots) == Some(c.endpoint_name@)
     &&& c.env == crt.env && c.file_manager.env == crt.env
 }
+pub open spec fn sync_values(m: Map<Seq<char>, EndpointSync>) -> Map<Seq<char>, Endpoint> { Map::new(m.dom(), |k: Seq<char>| m[k].v.v) }
 // the id a configured certificate gets: "<name>_<key type>"
 pub open spec fn cfg_id(crt: config::Certificate) -> Seq<char> { crate::certificate::cert_id(crt_name(crt).unwrap(), crt_key_type(crt).unwrap()) }
 // crt has its run-time object under its id, its account and its endpoint are known
-pub open spec fn built(cnf: Config, roots: Seq<&str>, crt: config::Certificate, certs: Map<Seq<char>, Certificate>, accounts: Set<Seq<char>>, endpoints: Set<Seq<char>>) -> bool {
+pub open spec fn built(cnf: Config, roots: Seq<&str>, crt: config::Certificate, certs: Map<Seq<char>, Certificate>, accounts: Set<Seq<char>>, endpoints: Map<Seq<char>, Endpoint>) -> bool {
     certs.dom().contains(cfg_id(crt)) && cert_ok(cnf, crt, roots, certs[cfg_id(crt)])
-    && accounts.contains(crt.account@) && endpoints.contains(certs[cfg_id(crt)].endpoint_name@)
+    && accounts.contains(crt.account@) && endpoints.dom().contains(certs[cfg_id(crt)].endpoint_name@)
+    // the endpoint object of the certificate has been built with the root certificates of the command line (C18)
+    && roots_text(endpoints[certs[cfg_id(crt)].endpoint_name@].cmdline_roots@) == roots_text(roots)
 }
 pub open spec fn loaded(cnf: Config, roots: Seq<&str>, l: MainEventLoop) -> bool {
     (forall|i: int, j: int| 0 <= i < j < cnf.certificate@.len() ==> cfg_id(#[trigger] cnf.certificate@[i]) != cfg_id(#[trigger] cnf.certificate@[j]))
-    && (forall|j: int| 0 <= j < cnf.certificate@.len() ==> built(cnf, roots, #[trigger] cnf.certificate@[j], l.certificates@, l.accounts@.dom(), l.endpoints@.dom()))
+    && (forall|j: int| 0 <= j < cnf.certificate@.len() ==> built(cnf, roots, #[trigger] cnf.certificate@[j], l.certificates@, l.accounts@.dom(), sync_values(l.endpoints@)))
 }
 """
